@@ -53,6 +53,13 @@ fn parse_ty(s: &str) -> DataType {
         "f32" => Float32,
         "f64" => Float64,
         "bool" => Boolean,
+        "null" => Null,
+        "iym" => Interval(IntervalUnit::YearMonth),
+        "idt" => Interval(IntervalUnit::DayTime),
+        "imdn" => Interval(IntervalUnit::MonthDayNano),
+        "bin" => Binary,
+        "lbin" => LargeBinary,
+        "binv" => BinaryView,
         "utf8" => Utf8,
         "lutf8" => LargeUtf8,
         "utf8v" => Utf8View,
@@ -65,6 +72,7 @@ fn parse_ty(s: &str) -> DataType {
                 "d64" => Decimal64(f[1].parse().unwrap(), f[2].parse().unwrap()),
                 "d128" => Decimal128(f[1].parse().unwrap(), f[2].parse().unwrap()),
                 "d256" => Decimal256(f[1].parse().unwrap(), f[2].parse().unwrap()),
+                "fsb" => FixedSizeBinary(f[1].parse().unwrap()),
                 "ts" => Timestamp(unit(f[1]), None),
                 "dur" => Duration(unit(f[1])),
                 "t32" => Time32(unit(f[1])),
@@ -187,6 +195,53 @@ fn build(dt: &DataType, toks: &[&str], force: bool) -> ArrayRef {
                 _ => Arc::new(StringViewArray::from(v)),
             }
         }
+        Null => Arc::new(NullArray::new(toks.len())),
+        Interval(IntervalUnit::YearMonth) => Arc::new(prim::<IntervalYearMonthType>(toks, force, |s| i128_of(s) as i32)),
+        Interval(IntervalUnit::DayTime) => Arc::new(prim::<IntervalDayTimeType>(toks, force, |s| {
+            let f: Vec<i128> = s.split('/').map(i128_of).collect();
+            arrow_buffer::IntervalDayTime::new(f[0] as i32, f[1] as i32)
+        })),
+        Interval(IntervalUnit::MonthDayNano) => Arc::new(prim::<IntervalMonthDayNanoType>(toks, force, |s| {
+            let f: Vec<i128> = s.split('/').map(i128_of).collect();
+            arrow_buffer::IntervalMonthDayNano::new(f[0] as i32, f[1] as i32, f[2] as i64)
+        })),
+        Binary | LargeBinary | BinaryView | FixedSizeBinary(_) => {
+            // value bytes are kept under null slots (`n:x<hex>`)
+            let mut data: Vec<u8> = vec![];
+            let mut lens: Vec<usize> = vec![];
+            let mut valid: Vec<bool> = vec![];
+            for t in toks {
+                let (v, p) = split_tok(t);
+                let mut b = if p.is_empty() { vec![] } else { unxhex(p) };
+                if let FixedSizeBinary(n) = dt {
+                    if !v && b.len() != *n as usize {
+                        b = vec![0u8; *n as usize];
+                    }
+                }
+                valid.push(v);
+                lens.push(b.len());
+                data.extend_from_slice(&b);
+            }
+            let nulls = if valid.iter().all(|b| *b) && !force { None } else { Some(NullBuffer::from(valid.clone())) };
+            match dt {
+                Binary => Arc::new(BinaryArray::new(arrow_buffer::OffsetBuffer::from_lengths(lens), data.into(), nulls)),
+                LargeBinary => Arc::new(LargeBinaryArray::new(arrow_buffer::OffsetBuffer::from_lengths(lens), data.into(), nulls)),
+                FixedSizeBinary(n) => Arc::new(FixedSizeBinaryArray::try_new(*n, data.into(), nulls).expect("fsb")),
+                _ => {
+                    let mut off = 0;
+                    let v: Vec<Option<Vec<u8>>> = lens
+                        .iter()
+                        .zip(valid.iter())
+                        .map(|(l, ok)| {
+                            let r = data[off..off + l].to_vec();
+                            off += l;
+                            if *ok { Some(r) } else { None }
+                        })
+                        .collect();
+                    Arc::new(BinaryViewArray::from_iter(v))
+                }
+            }
+        }
         _ => panic!("build: unsupported type {dt}"),
     }
 }
@@ -194,6 +249,14 @@ fn build(dt: &DataType, toks: &[&str], force: bool) -> ArrayRef {
 fn prefix_toks(dt: &DataType) -> [&'static str; 3] {
     match dt {
         DataType::Utf8 | DataType::LargeUtf8 | DataType::Utf8View => ["x7a", "n", "x2d39"],
+        DataType::Binary | DataType::LargeBinary | DataType::BinaryView => ["x7a", "n:xff", "xc3"],
+        DataType::FixedSizeBinary(0) => ["x", "n", "x"],
+        DataType::FixedSizeBinary(1) => ["x7a", "n", "xff"],
+        DataType::FixedSizeBinary(2) => ["x7a7a", "n", "xffc3"],
+        DataType::FixedSizeBinary(4) => ["x7a7a7a7a", "n", "xffc3ffc3"],
+        DataType::Null => ["n", "n", "n"],
+        DataType::Interval(IntervalUnit::DayTime) => ["1/2", "n:7/7", "0/0"],
+        DataType::Interval(IntervalUnit::MonthDayNano) => ["1/2/3", "n:7/7/7", "0/0/0"],
         DataType::Boolean => ["1", "n:1", "0"],
         _ => ["1", "n:77", "0"],
     }
@@ -278,6 +341,16 @@ fn show(arr: &dyn Array) -> String {
         }
         BinaryView => {
             let a = arr.as_binary_view();
+            (0..a.len()).map(|i| if a.is_null(i) { "n".into() } else { xhex(a.value(i)) }).collect()
+        }
+        Null => (0..arr.len()).map(|_| "n".to_string()).collect(),
+        Interval(IntervalUnit::YearMonth) => show_prim!(arr, IntervalYearMonthType, |x: i32| x.to_string()),
+        Interval(IntervalUnit::DayTime) => show_prim!(arr, IntervalDayTimeType, |x: arrow_buffer::IntervalDayTime| format!("{}/{}", x.days, x.milliseconds)),
+        Interval(IntervalUnit::MonthDayNano) => {
+            show_prim!(arr, IntervalMonthDayNanoType, |x: arrow_buffer::IntervalMonthDayNano| format!("{}/{}/{}", x.months, x.days, x.nanoseconds))
+        }
+        FixedSizeBinary(_) => {
+            let a = arr.as_fixed_size_binary();
             (0..a.len()).map(|i| if a.is_null(i) { "n".into() } else { xhex(a.value(i)) }).collect()
         }
         other => vec![format!("?{}", other).replace(' ', "_")],
@@ -626,6 +699,181 @@ fn op_cast(var: usize, src: &str, dst: &str, safe: bool, vals: &str) -> Out {
     out
 }
 
+// ------------------------------------------------- second entry points: encoded sources
+
+/// `C13 enc <kind> <var> <src> <dst> <safe> <vals>`: the logical column `vals` is handed to the
+/// cast as a dictionary (flavours: unused / duplicated / null dictionary values), a run-end
+/// encoded array or a slice of a longer array; the answer is the cast result, which must be what
+/// the plain array gives (the Lean model of the plain cast is the reference).
+fn op_enc(kind: &str, var: usize, src: &str, dst: &str, safe: bool, vals: &str) -> Out {
+    let (from, to) = (parse_ty(src), parse_ty(dst));
+    let toks: Vec<&str> = if vals == "-" { vec![] } else { vals.split(',').collect() };
+    let f: Vec<&str> = kind.split(':').collect();
+    let enc: ArrayRef = match f[0] {
+        "dict" => {
+            let flavor: usize = f[2].parse().unwrap();
+            // dictionary values: distinct valid tokens (twice when duplicated), then extras
+            let mut vt: Vec<String> = vec![];
+            let mut keys: Vec<Option<usize>> = vec![];
+            let mut null_slot: Option<usize> = None;
+            for (i, t) in toks.iter().enumerate() {
+                let (valid, _) = split_tok(t);
+                if valid {
+                    let pos = match vt.iter().position(|x| x == t) {
+                        Some(p) => p,
+                        None => {
+                            vt.push(t.to_string());
+                            if flavor & 2 != 0 {
+                                vt.push(t.to_string());
+                            }
+                            vt.len() - 1 - (if flavor & 2 != 0 { 1 } else { 0 })
+                        }
+                    };
+                    keys.push(Some(if flavor & 2 != 0 && i % 2 == 1 { pos + 1 } else { pos }));
+                } else if flavor & 4 != 0 && i % 2 == 0 {
+                    // a valid key that points at a null dictionary value
+                    let p = *null_slot.get_or_insert_with(|| {
+                        vt.push("n".to_string());
+                        vt.len() - 1
+                    });
+                    keys.push(Some(p));
+                } else {
+                    keys.push(None);
+                }
+            }
+            if flavor & 1 != 0 {
+                // unreferenced dictionary values: the payloads found under the null rows
+                for t in &toks {
+                    let (valid, p) = split_tok(t);
+                    if !valid && !p.is_empty() {
+                        vt.push(p.to_string());
+                    }
+                }
+                if let Some(t) = vt.first().cloned() {
+                    vt.push(t);
+                }
+            }
+            let vrefs: Vec<&str> = vt.iter().map(|x| x.as_str()).collect();
+            let values = build(&from, &vrefs, false);
+            macro_rules! mk {
+                ($kt:ty, $nt:ty) => {{
+                    let k: PrimitiveArray<$kt> = keys.iter().map(|k| k.map(|x| x as $nt)).collect();
+                    Arc::new(DictionaryArray::<$kt>::try_new(k, values).expect("dict")) as ArrayRef
+                }};
+            }
+            match f[1] {
+                "i8" => mk!(Int8Type, i8),
+                "u16" => mk!(UInt16Type, u16),
+                "i64" => mk!(Int64Type, i64),
+                _ => mk!(Int32Type, i32),
+            }
+        }
+        "ree" => {
+            let mut ends: Vec<i32> = vec![];
+            let mut vt: Vec<&str> = vec![];
+            for (i, t) in toks.iter().enumerate() {
+                let t2 = if split_tok(t).0 { *t } else { "n" };
+                if vt.last().map_or(true, |l| *l != t2) || f[1] == "split" && i % 3 == 0 {
+                    vt.push(t2);
+                    ends.push(i as i32 + 1);
+                } else {
+                    *ends.last_mut().unwrap() = i as i32 + 1;
+                }
+            }
+            let values = build(&from, &vt, false);
+            Arc::new(RunArray::<Int32Type>::try_new(&Int32Array::from(ends), values.as_ref()).expect("ree"))
+        }
+        "list" | "llist" | "lview" | "fsl" => {
+            // the column is the child of a list array (groups of k rows); the inner cast is observed on the child
+            let k: usize = f[1].parse().unwrap();
+            let k = if k == 0 || toks.is_empty() || toks.len() % k != 0 { 1 } else { k };
+            let child = build_var(&from, &toks, var);
+            let field = Arc::new(Field::new_list_field(from.clone(), true));
+            let to_field = Arc::new(Field::new_list_field(to.clone(), true));
+            let n = toks.len() / k;
+            let lens = vec![k; n];
+            let (arr, to_list): (ArrayRef, DataType) = match f[0] {
+                "list" => (Arc::new(ListArray::new(field, arrow_buffer::OffsetBuffer::from_lengths(lens), child, None)), if var % 2 == 0 { DataType::List(to_field) } else { DataType::LargeList(to_field) }),
+                "llist" => (Arc::new(LargeListArray::new(field, arrow_buffer::OffsetBuffer::from_lengths(lens), child, None)), if var % 2 == 0 { DataType::LargeList(to_field) } else { DataType::List(to_field) }),
+                "lview" => {
+                    let offs: Vec<i32> = (0..n).map(|i| (i * k) as i32).collect();
+                    let sizes: Vec<i32> = vec![k as i32; n];
+                    (Arc::new(ListViewArray::new(field, offs.into(), sizes.into(), child, None)), DataType::ListView(to_field))
+                }
+                _ => (Arc::new(FixedSizeListArray::new(field, k as i32, child, None)), DataType::FixedSizeList(to_field, k as i32)),
+            };
+            let pick = |r: Result<ArrayRef, String>| -> Result<ArrayRef, String> {
+                r.map(|a| match a.data_type() {
+                    DataType::List(_) => a.as_list::<i32>().values().clone(),
+                    DataType::LargeList(_) => a.as_list::<i64>().values().clone(),
+                    DataType::ListView(_) => a.as_list_view::<i32>().values().clone(),
+                    DataType::FixedSizeList(_, _) => a.as_fixed_size_list().values().clone(),
+                    _ => a,
+                })
+            };
+            let rs = pick(do_cast(&arr, &to_list, true));
+            let rt = pick(do_cast(&arr, &to_list, false));
+            let mut out = Out::new(answer(if safe { &rs } else { &rt }));
+            if !in_domain(&from, &toks) {
+                out.tags.push("ood".into());
+            }
+            if let (Some((_, p1, s1)), Some((_, _, s2))) = (dec_params(&from), dec_params(&to)) {
+                if s2 >= s1 && p1 as i32 + (s2 as i32 - s1 as i32) > 127 {
+                    out.tags.push("kf:upscale-i8-wrap".into());
+                }
+            }
+            if matches!(&rs, Err(e) if e == "PANIC") || matches!(&rt, Err(e) if e == "PANIC") {
+                out.tags.push("kf:panic".into());
+            }
+            let plain = do_cast(&build_var(&from, &toks, var), &to, safe);
+            if answer(&plain) != out.answer {
+                out.oracle.push(format!("list child ({}) casts to {} but the plain array casts to {}", kind, out.answer, answer(&plain)));
+                out.tags.push("kf:enc-differs:list".into());
+            }
+            return out;
+        }
+        _ => {
+            // a slice out of the middle of a longer array, validity buffer forced
+            let pre = prefix_toks(&from);
+            let mut all: Vec<&str> = pre.to_vec();
+            all.extend_from_slice(&toks);
+            all.extend_from_slice(&pre[..2]);
+            build(&from, &all, true).slice(3, toks.len())
+        }
+    };
+    let _ = var;
+    let valid_in: Vec<bool> = toks.iter().map(|t| split_tok(t).0).collect();
+    let rs = do_cast(&enc, &to, true);
+    let rt = do_cast(&enc, &to, false);
+    let mut out = Out::new(answer(if safe { &rs } else { &rt }));
+    let dom = in_domain(&from, &toks);
+    if !dom {
+        out.tags.push("ood".into());
+    }
+    if let (Some((_, p1, s1)), Some((_, _, s2))) = (dec_params(&from), dec_params(&to)) {
+        if s2 >= s1 && p1 as i32 + (s2 as i32 - s1 as i32) > 127 {
+            out.tags.push("kf:upscale-i8-wrap".into());
+        }
+    }
+    if matches!(&rs, Err(e) if e == "PANIC") || matches!(&rt, Err(e) if e == "PANIC") {
+        out.tags.push("kf:panic".into());
+    }
+    // the plain array is the reference on the implementation side too
+    let plain = build(&from, &toks.iter().map(|t| if split_tok(t).0 { *t } else { "n" }).collect::<Vec<_>>(), false);
+    let pr = do_cast(&plain, &to, safe);
+    if answer(&pr) != out.answer {
+        out.oracle.push(format!("encoded source ({}) casts to {} but the plain array casts to {}", kind, out.answer, answer(&pr)));
+        out.tags.push(format!("kf:enc-differs:{}", f[0]));
+    }
+    if let (Ok(a), Ok(b)) = (&rs, &rt) {
+        if show(a.as_ref()) != show(b.as_ref()) {
+            out.oracle.push("duality: strict and safe results differ".into());
+        }
+    }
+    let _ = valid_in;
+    out
+}
+
 fn int_range(t: &str) -> Option<(i128, i128)> {
     Some(match t {
         "i8" => (i8::MIN as i128, i8::MAX as i128),
@@ -701,6 +949,10 @@ fn lossless(src: &str, mid: &str) -> bool {
         return true;
     }
     if src.starts_with("dur:") && mid == "i64" {
+        return true;
+    }
+    // text round trips through chrono / the interval parser (times of day, Date64 within years 1..9999, intervals, f16)
+    if is_str(mid) && (src.starts_with("t32:") || src.starts_with("t64:") || matches!(src, "date64" | "iym" | "idt" | "imdn" | "f16")) {
         return true;
     }
     false
@@ -888,6 +1140,7 @@ fn run_case(line: &str) -> Out {
     match t[1] {
         "cast" => op_cast(us(t[2]), t[3], t[4], t[5] == "1", t[6]),
         "rt" => op_rt(us(t[2]), t[3], t[4], t[5]),
+        "enc" => op_enc(t[2], us(t[3]), t[4], t[5], t[6] == "1", t[7]),
         "reenc" => op_reenc(t[2], us(t[3]), t[4], t[5]),
         "cancast" => op_cancast(t[2], t[3]),
         "dtype" => op_dtype(t[2], t[3]),
@@ -1443,6 +1696,156 @@ fn float_boundary_cases() -> Vec<(String, String)> {
     out
 }
 
+/// deterministic block: null source, bool/float, Float16 targets, decimal -> float, and the
+/// encoded entry points (dictionary flavours, run-end, slice) over modelled pairs
+fn extra_boundary_cases() -> Vec<(String, String)> {
+    let mut out = vec![];
+    let mut both = |src: &str, dst: &str, vals: String, tag: &str| {
+        for safe in [1, 0] {
+            out.push((format!("C13 cast 1 {} {} {} {}", src, dst, safe, vals), format!("op:cast g:{} safe:{} nt", tag, safe)));
+        }
+    };
+    for dst in ["i8", "u64", "f32", "f16", "bool", "utf8", "utf8v", "d128:10:2", "d256:76:0", "ts:s", "date32", "date64", "dur:ms", "t32:s", "t64:ns"] {
+        both("null", dst, "n,n,n".into(), "null-src");
+        both("null", dst, "-".into(), "null-src");
+    }
+    for fl in ["f16", "f32", "f64"] {
+        both("bool", fl, "0,1,n:1,n,1,0".into(), "bool-float");
+        let v: Vec<String> = [0.0, -0.0, 1.0, -1.0, 0.5, 5e-324, 6e-8, f64::NAN, f64::INFINITY, f64::NEG_INFINITY, 65504.0].iter().map(|x| ftok(fl, *x)).collect();
+        both(fl, "bool", format!("n:{},{}", v[2], v.join(",")), "float-bool");
+    }
+    // integer / float -> Float16 (via f32: double rounding) and -> f32 / f64
+    let ints: Vec<i128> = vec![0, 1, -1, 2047, 2048, 2049, 2050, 2051, 4095, 4097, 4098, 4099, 65503, 65504, 65519, 65520, 65535, 65536, 16777217, 16779265, 33556481, -2049, -65520, 134225921, 9007199254740993, 1125899906842625, 36028797018963969];
+    for src in INTS {
+        let (lo, hi) = int_range(src).unwrap();
+        let t: Vec<String> = ints.iter().filter(|x| **x >= lo && **x <= hi).map(|x| x.to_string()).chain([lo.to_string(), hi.to_string()]).collect();
+        both(src, "f16", t.join(","), "int-f16");
+    }
+    let h = |k: i32| 2f64.powi(k);
+    let f16_edges: Vec<f64> = vec![
+        1.0 + h(-11), 1.0 + h(-11) + h(-40), 1.0 + h(-11) - h(-40), 1.0 + h(-11) + h(-24), 1.0 + h(-11) + h(-25), 1.0 + 3.0 * h(-11), 1.0 + 3.0 * h(-11) - h(-30),
+        65504.0, 65519.9, 65520.0, 65519.99999999999, 65536.0, 1e5, h(-24), h(-25), h(-25) + h(-60), 1.5 * h(-24), h(-14), h(-14) - h(-25), 2049.0, 2051.0, 2050.0000001, 0.1, 0.0, f64::NAN, f64::INFINITY,
+    ];
+    for fl in ["f64", "f32"] {
+        let mut t: Vec<String> = vec![];
+        for x in &f16_edges {
+            for y in [*x, -*x] {
+                let s = ftok(fl, y);
+                if !t.contains(&s) {
+                    t.push(s);
+                }
+            }
+        }
+        both(fl, "f16", t.join(","), "float-f16");
+    }
+    let f32_edges: Vec<f64> = vec![1.0 + h(-24), 1.0 + h(-24) + h(-52), 1.0 + h(-24) - h(-53), 1.0 + 3.0 * h(-24), 16777217.0, 3.4028235677973366e38, 3.4028235677973362e38, 3.5e38, h(-149), h(-150), h(-150) + h(-200), h(-126) - h(-150), 1e-46, 0.1];
+    both("f64", "f32", f32_edges.iter().flat_map(|x| [ftok("f64", *x), ftok("f64", -*x)]).collect::<Vec<_>>().join(","), "float-f32");
+    // decimal -> float
+    for (w, p) in [(32u32, 9usize), (64, 18), (128, 38), (256, 76)] {
+        for s in [0i64, 2, -2, p as i64] {
+            let mut v: Vec<String> = vec!["0".into(), "1".into(), "-1".into(), "3".into(), "15".into(), "-25".into(), nines(p), format!("-{}", nines(p)), format!("1{}", "0".repeat(p - 1))];
+            for x in ["16777217", "9007199254740993", "-9007199254740993", "9007199254740995", "18014398509481985", "123456789012345678901234567890", "340282366920938463463374607431768211455", "57896044618658097711785492504343953926634992332820282019728792003956564819967"] {
+                if x.trim_start_matches('-').len() <= p {
+                    v.push(x.to_string());
+                }
+            }
+            for fl in ["f64", "f32", "f16"] {
+                both(&dec_tok(w, p, s), fl, v.join(","), "dec-float");
+            }
+        }
+    }
+    // byte containers: every arm of the Binary / LargeBinary / BinaryView / FixedSizeBinary / Utf8 family
+    let bytes_vals = "x,x61,xc3a9,xe282ac,xf09f9880,xff,xc3,xc080,xeda080,xf5808080,xe282,x6162636465666768696a6b6c,x6162636465666768696a6b6c6d,x6162636465666768696a6bc3a9,n,n:xff,n:x61,xf4908080,x00,x7f";
+    let text_vals = "x,x61,xc3a9,xe282ac,xf09f9880,x6162636465666768696a6b6c,x6162636465666768696a6b6c6d,x6162636465666768696a6bc3a9,n,x00,x7f";
+    for src in ["bin", "lbin", "binv"] {
+        for dst in ["bin", "lbin", "binv", "utf8", "lutf8", "utf8v"] {
+            if src != dst {
+                both(src, dst, bytes_vals.into(), "bytes");
+            }
+        }
+    }
+    for src in ["bin", "lbin"] {
+        for dst in ["utf8", "lutf8", "utf8v"] {
+            // every row valid UTF-8; only the bytes under the null slot are not
+            both(src, dst, "x61,n:xff,xc3a9,n:xc3,x".into(), "bytes-null-payload");
+        }
+    }
+    for src in ["bin", "lbin"] {
+        for n in [0, 1, 2, 4] {
+            both(src, &format!("fsb:{}", n), "x,x61,xc3a9,x61626364,xff,n,n:x6161,x6162,x0000,x6162636465".into(), "bytes-fsb");
+        }
+    }
+    for (n, vals) in [(0, "x,n,x"), (1, "x61,xff,n,n:x62,x00"), (2, "x6162,xffc3,n,xc3a9"), (4, "x61626364,xf09f9880,n,xffffffff")] {
+        for dst in ["bin", "lbin", "binv"] {
+            both(&format!("fsb:{}", n), dst, vals.into(), "bytes-fsb");
+        }
+    }
+    for src in ["utf8", "lutf8", "utf8v"] {
+        for dst in ["bin", "lbin", "binv"] {
+            both(src, dst, text_vals.into(), "bytes");
+        }
+    }
+    for src in INTS {
+        let (lo, hi) = int_range(src).unwrap();
+        for dst in ["bin", "lbin"] {
+            both(src, dst, format!("{},{},0,1,n:77,258,n", lo, hi).replace("258", &(258i128.min(hi)).to_string()), "int-bytes");
+        }
+    }
+    // intervals and durations
+    both("iym", "imdn", "0,1,-1,2147483647,-2147483648,n:5,n".into(), "interval");
+    both("i32", "iym", "0,1,-1,2147483647,-2147483648,n:5,n".into(), "interval");
+    both("idt", "imdn", "0/0,1/1,-1/-1,2147483647/2147483647,-2147483648/-2147483648,n:3/4,n,0/999,5/0".into(), "interval");
+    for u in UNITS {
+        both(&format!("dur:{u}"), "imdn", "0,1,-1,9223372036,9223372037,-9223372036,-9223372037,9223372036854,9223372036855,9223372036854775,9223372036854776,9223372036854775807,-9223372036854775808,n:9223372036854775807,n".into(), "interval");
+        both("imdn", &format!("dur:{u}"), "0/0/0,0/0/1,0/0/-1,0/0/999,0/0/1000,0/0/-1999,0/0/999999999,0/0/1000000000,0/0/-1000000001,0/0/9223372036854775807,0/0/-9223372036854775808,1/0/5,0/1/5,-1/0/0,0/-1/0,n:1/1/1,n:0/0/7,n".into(), "interval");
+    }
+    // text round trips of the remaining temporal / interval types (implementation-level oracle)
+    for (src, vals) in [
+        ("t32:s", "0,1,59,60,3599,3600,43200,86399,n:5,n"),
+        ("t32:ms", "0,1,999,1000,59999,86399999,3600000"),
+        ("t64:us", "0,1,999999,1000000,86399999999"),
+        ("t64:ns", "0,1,999,1000,999999999,1000000000,60000000000,86399999999999,123456789"),
+        ("date64", "0,1,86399999,86400000,-1,-86400000,253402214400000,253402300799999,-62135596800000,n"),
+        ("iym", "0,1,-1,11,12,13,-11,-12,-13,25,2147483647,-2147483640,-2147483641,-2147483648"),
+        ("idt", "0/0,1/1,-1/-1,1/-1,-1/1,0/-1,3/999,0/1000,0/60000,0/3600000,0/86400000,2147483647/2147483647,-2147483648/-2147483648"),
+        ("imdn", "0/0/0,1/1/1,-1/-1/-1,1/-1/1,-1/1/-1,0/0/-1,13/40/999999999,0/0/1000000000,0/0/60000000000,0/0/3600000000000,12/0/0,-12/0/0,2147483647/2147483647/9223372036854775807,-2147483648/-2147483648/-9223372036854775808"),
+        ("ts:ms", "0,1,-1,253402300799999,-62135596800000"),
+        ("ts:ns", "0,1,-1,999999999,-999999999,9223372036854775807,-9223372036854775808"),
+        ("f16", "15360,0,32768,31743,64511,1,1024,1023,15361,11878"),
+    ] {
+        for mid in ["utf8", "lutf8", "utf8v"] {
+            for (i, chunk) in vals.split(',').collect::<Vec<_>>().chunks(1).enumerate() {
+                // one value per line so that one failing value does not hide the others
+                if mid != "utf8" && i % 3 != 0 {
+                    continue;
+                }
+                out.push((format!("C13 rt 0 {} {} {}", src, mid, chunk.join(",")), "op:rt g:rt-text-temporal nt".to_string()));
+            }
+        }
+    }
+    // encoded entry points
+    let pairs: [(&str, &str, &str); 10] = [
+        ("i32", "i8", "127,128,n:300,-128,-129,n,127,127,5,5,5,n:7"),
+        ("i64", "d128:10:2", "99999999,100000000,n:100000000,-99999999,1,1,n"),
+        ("d128:5:2", "d128:3:0", "99949,99950,n:99999,-99950,49,50,50,n"),
+        ("utf8", "i16", "x3132,x2d3332373638,x3332373638,n,x20370a,x3132,x61"),
+        ("i16", "utf8", "-32768,0,n:5,32767,0,0"),
+        ("f64", "d64:10:1", "4602678819172646912,4591870180066957722,n:4607182418800017408,4890909195324358656,9218868437227405312"),
+        ("date32", "ts:us", "0,1,n:2147483647,106751991,106751992,-106751992,1,1"),
+        ("u64", "d128:19:0", "9999999999999999999,10000000000000000000,18446744073709551615,n,0,0"),
+        ("d256:10:0", "d128:20:5", "9999999999,n,-1,1,1"),
+        ("bool", "i8", "1,0,n:1,1,1,n"),
+    ];
+    for kind in ["dict:i8:0", "dict:i32:1", "dict:u16:2", "dict:i32:4", "dict:i64:7", "dict:i32:3", "ree:run", "ree:split", "slice", "list:1", "list:2", "llist:3", "lview:2", "fsl:1", "fsl:2"] {
+        for (src, dst, vals) in pairs {
+            for safe in [1, 0] {
+                out.push((format!("C13 enc {} 0 {} {} {} {}", kind, src, dst, safe, vals), format!("op:enc g:enc-{} safe:{} nt", kind.replace(':', "-"), safe)));
+            }
+        }
+    }
+    out
+}
+
 fn gen_cast(rng: &mut Rng) -> (String, String) {
     let var = gen_var(rng);
     let safe = rng.below(2);
@@ -1667,7 +2070,14 @@ fn gen_cast(rng: &mut Rng) -> (String, String) {
             (fl.into(), d, with_nulls(rng, v, &|_| "0".into()), "g:float-num".into())
         } else {
             let s = *rng.pick(&INTS);
-            (s.into(), (if fl == "f16" { "f32" } else { fl }).into(), int_vals(rng, s), "g:int-float".into())
+            if rng.chance(1, 3) {
+                let w = gen_width(rng);
+                let p = gen_prec(rng, w);
+                let sc = gen_scale(rng, p);
+                (dec_tok(w, p, sc), fl.into(), dec_vals(rng, w, p, false), "g:dec-float".into())
+            } else {
+                (s.into(), fl.into(), int_vals(rng, s), "g:int-float".into())
+            }
         }
     };
     let line = format!("C13 cast {} {} {} {} {}", var, src, dst, safe, join(&vals));
@@ -2071,6 +2481,9 @@ fn main() {
             for (line, tags) in float_boundary_cases() {
                 emit(&mut sink, line, tags, None);
             }
+            for (line, tags) in extra_boundary_cases() {
+                emit(&mut sink, line, tags, None);
+            }
         }
         let mut idx = 0usize;
         for _ in 0..n_grid.min(if args.cases.is_some() { n } else { usize::MAX }) {
@@ -2079,9 +2492,22 @@ fn main() {
         }
         for _ in 0..n {
             match rng.below(20) {
-                0..=11 => {
+                0..=10 => {
                     let (line, tags) = gen_cast(&mut rng);
                     emit(&mut sink, line, tags, None);
+                }
+                11 => {
+                    // the same cast through an encoded source
+                    let (line, tags) = gen_cast(&mut rng);
+                    let f: Vec<&str> = line.splitn(7, ' ').collect();
+                    let kind = *rng.pick(&["dict:i8:0", "dict:i32:1", "dict:u16:2", "dict:i32:4", "dict:i64:7", "dict:i32:5", "ree:run", "ree:split", "slice", "list:1", "list:2", "llist:3", "lview:2", "fsl:1", "fsl:3"]);
+                    let n = if f[6] == "-" { 0 } else { f[6].split(',').count() };
+                    if n > 60 || tags.contains("g:float") && f[6].contains("n:") {
+                        emit(&mut sink, line, tags, None);
+                    } else {
+                        let l2 = format!("C13 enc {} {} {} {} {} {}", kind, f[2], f[3], f[4], f[5], f[6]);
+                        emit(&mut sink, l2, tags.replace("op:cast", &format!("op:enc enc:{}", kind.split(':').next().unwrap())), None);
+                    }
                 }
                 12 | 13 => {
                     let (line, tags) = gen_rt(&mut rng);
